@@ -13,7 +13,7 @@ LEVEL = "exploration"
 RULE = ("surface positions: equator +-{0,1,10,4000} bins, NL transitions +-bins, +-87, zone edges, mid-latitudes in all "
         "quadrants x longitudes {0, +-90, +-180 +-bins, zone edges +-1 bin, generic} x displacement {0, 0.2 NM N/E/S/W} "
         "x receiver offsets {0, +-40 NM N/S, +-40 NM E/W, four 30 NM diagonals} (|dlon| < 45 deg) x both time orders x "
-        "TC 5..8; position() without a receiver must raise RuntimeError; distinct = distinct (yz0,xz0,yz1,xz1)")
+        "TC 5..8; position() without a receiver must raise RuntimeError; N,S,N / S,N,S decode sequences of targets 90 deg apart in latitude (identical CPR latitude fields); distinct = distinct (yz0,xz0,yz1,xz1)")
 ASSUMPTIONS = ["expected = encoder's (Rlat_i, Rlon_i) of the newer frame within one quantisation step (90/(60-i)/2^17, "
                "Dlon_i/2^17), longitude modulo 360", "receiver positions with |lat| > 90 or a longitude offset >= 45 deg "
                "(polar caps) are not generated", "positions within 1e-9 deg of an NL transition skipped",
@@ -94,7 +94,7 @@ def w_lats(arg):
                         acc.bad(s, {"p": ["noref", m0, m1, 1, 2, None, None, None]})
                 for rn, re_ in recvs:
                     latr, lonr = C.offset_nm(lat, lon, rn, re_)
-                    if not (-90 <= latr <= 90) or abs(lonr - lon) >= 45:
+                    if not (-90 <= latr <= 90) or abs(lonr - lon) >= 45 or abs(lonr - lonB) >= 45:
                         acc.c["receiver_outside_premise"] += 1
                         continue
                     lonr = S.wrap180(lonr)
@@ -114,6 +114,50 @@ def w_lats(arg):
     return acc.res()
 
 
+def w_alias(arg):
+    """Sequences of decodes whose frames carry IDENTICAL CPR latitude fields but belong to targets 90 degrees apart in
+    latitude (north / south solution): N,S,N and S,N,S in one process, each with its own nearby receiver.  An absolute
+    oracle on every step exposes state carried from one call to the next (e.g. a cache keyed on the CPR fields)."""
+    lats = arg
+    acc = Acc()
+    k = 0
+    for lat in lats:
+        for lon in (Fr(100457, 10000), Fr(-1796, 10), Fr(5, 100)):
+            tg = {"N": (lat, lon), "S": (lat - 90, lon)}
+            enc = {}
+            for h, (la, lo) in tg.items():
+                e0, e1 = C.encode(la, lo, 0, True), C.encode(la, lo, 1, True)
+                enc[h] = (e0, e1)
+            if (enc["N"][0]["yz"], enc["N"][1]["yz"]) != (enc["S"][0]["yz"], enc["S"][1]["yz"]):
+                acc.c["alias_fields_differ"] += 1
+                continue
+            for order in ("NSN", "SNS"):
+                for newer_even in (True, False):
+                    for step, h in enumerate(order):
+                        k += 1
+                        e0, e1 = enc[h]
+                        if C.near_transition(e0["rlat"], C.EPS) or C.near_transition(e1["rlat"], C.EPS) or C.NL(e0["rlat"]) != C.NL(e1["rlat"]):
+                            continue
+                        m0 = F.es(C.me_surface(7, 10, 1, 5, 0, e0["yz"], e0["xz"]), 0x406B90, 5, 17)
+                        m1 = F.es(C.me_surface(7, 10, 1, 5, 1, e1["yz"], e1["xz"]), 0x406B90, 5, 17)
+                        la, lo = tg[h]
+                        latr, lonr = C.offset_nm(la, lo, 7 if h == "N" else -7, 7)
+                        e = e0 if newer_even else e1
+                        t0, t1 = (5, 4) if newer_even else (4, 5)
+                        exp = [float(e["rlat"]), float(e["rlon"]), float(e["dlat"]) / 131072, float(e["dlon"]) / 131072, "hemisphere_alias"]
+                        p_ = ("surface_position", m0, m1, t0, t1, float(latr), float(S.wrap180(lonr)), exp)
+                        acc.n += 1
+                        s = judge(p_)
+                        if s:
+                            acc.bad(s + ":step%d_of_%s" % (step, order), {"p": list(p_)})
+            acc.out.add(("alias", lat, lon))
+    return acc.res()
+
+
+def w_any(t):
+    return w_alias(t[1]) if t[0] == "a" else w_lats(t[1])
+
+
 def surface_lats(dense):
     binw = Fr(90, 60 * (1 << 17))
     out = []
@@ -128,11 +172,13 @@ def surface_lats(dense):
 def run(ctx):
     lats = surface_lats(ctx.thorough)
     recvs = RECV_T if ctx.thorough else RECV
-    ctx.pmap(w_lats, [(c, recvs, ctx.seed) for c in chunks(lats, 6)])
+    al = [Fr(3, 10), Fr(100123, 10000), Fr(4001234, 100000), Fr(449, 10), Fr(5995, 100), Fr(867, 10), Fr(893, 10), Fr(2, 1)]
+    al += [Fr(t) + o for t in list(C.TRANS.values())[::6] for o in (Fr(-1, 1000), Fr(1, 1000))]
+    ctx.pmap(w_any, [("l", (c, recvs, ctx.seed)) for c in chunks(lats, 6)] + [("a", al)])
     ctx.cov["latitudes"] = len(lats)
     ctx.cov["receiver_offsets"] = len(recvs)
 
 
 def replay(case):
     s = judge(tuple(case["p"]))
-    return [(s, case)] if s else []
+    return [(s, case)] + [(s + ":step%d_of_%s" % (i, o), case) for i in range(3) for o in ("NSN", "SNS")] if s else []
